@@ -28,9 +28,14 @@ func FileSetup(r *rand.Rand, f int, o SetupOpts) (h hist.History, local string) 
 	case 0, 1:
 		h = append(h, hist.Op{Kind: "newfile", F: f, A: "p"})
 	case 2:
-		local = pick(r, PathPool)
-		if !o.NoLocal && len(o.Paths) > 0 && r.Intn(2) == 0 {
-			local = pick(r, o.Paths)
+		local = pick(r, SafeLocal)
+		if !o.NoLocal && len(o.Paths) > 0 && r.Intn(2) == 0 && safeLocal[pick(r, o.Paths)] {
+			for _, p := range o.Paths {
+				if safeLocal[p] {
+					local = p
+					break
+				}
+			}
 		}
 		h = append(h, hist.Op{Kind: "newfilepath", F: f, A: local})
 	default:
@@ -74,7 +79,9 @@ func FileSetup(r *rand.Rand, f int, o SetupOpts) (h hist.History, local string) 
 	if r.Intn(4) == 0 {
 		var ps []string
 		for j := 0; j < 1+r.Intn(2); j++ {
-			ps = append(ps, pick(r, PathPool))
+			if p := pick(r, PathPool); p != local { // importing the file's own package is not a meaningful input
+				ps = append(ps, p)
+			}
 		}
 		h = append(h, hist.Op{Kind: "anon", F: f, Strs: ps})
 	}
@@ -105,4 +112,20 @@ func somePaths(r *rand.Rand, max int) []string {
 		}
 	}
 	return out
+}
+
+// SafeLocal: paths for which NewFilePath infers a usable package name (a path such as
+// a.b/type makes `package type`, which is the caller's choice and outside every property).
+var SafeLocal []string
+var safeLocal = map[string]bool{}
+
+func init() {
+	for _, p := range PathPool {
+		w := hist.NewWorld()
+		obs := w.Exec(hist.History{{Kind: "newfilepath", F: 0, A: p}, {Kind: "render", F: 0}})
+		if len(obs) == 1 && obs[0].Kind == "write" {
+			SafeLocal = append(SafeLocal, p)
+			safeLocal[p] = true
+		}
+	}
 }
